@@ -54,6 +54,8 @@ func init() {
 	simsFor["C16"] = []simWeight{{"grid", 1}}
 	register(c12Sim{})
 	simsFor["C12"] = []simWeight{{"c12", 1}}
+	register(c17Sim{})
+	simsFor["C17"] = []simWeight{{"c17", 1}}
 	register(c13Sim{})
 	simsFor["C13"] = []simWeight{{"c13", 1}}
 	register(c04Sim{})
@@ -76,6 +78,7 @@ var (
 	flagWorker  = flag.Int("wsim.worker", 0, "worker number")
 	flagMaxFail = flag.Int("wsim.maxfail", 3, "stop after this many failing runs")
 	flagSimOnly = flag.String("wsim.sim", "", "restrict to one simulation kind")
+	flagRace    = flag.Bool("wsim.race", false, "free-running workloads for the race detector (no scheduler, no hooks)")
 )
 
 var nSites int
@@ -229,6 +232,10 @@ func TestWsim(t *testing.T) {
 		minimiseMain(t)
 		return
 	}
+	if *flagRace {
+		raceMain(t)
+		return
+	}
 	prop := *flagProp
 	if prop == "" {
 		t.Skip("no -wsim.prop")
@@ -337,4 +344,54 @@ func replayMain(t *testing.T) {
 	} else {
 		fmt.Printf("REPLAY-CLEAN property=%s\n", tr.Property)
 	}
+}
+
+// raceRunner is implemented by simulations that have a free-running variant.
+type raceRunner interface {
+	RunRace(e *Env, c interface{})
+}
+
+// raceMain runs the free-running workloads; the race detector (the binary is
+// built with -race) reports to stderr and makes the process exit non-zero.
+func raceMain(t *testing.T) {
+	prop := *flagProp
+	n := *flagN
+	if n == 0 {
+		n = 200
+		if *flagTier == "thorough" {
+			n = 20000
+		}
+	}
+	t0 := time.Now()
+	st := newStats()
+	for k := 0; k < n; k++ {
+		if *flagBudget > 0 && time.Since(t0).Seconds() > *flagBudget {
+			break
+		}
+		seed := RunSeed(*flagSeed, prop+"/race", k)
+		r := newRng(seed)
+		sim := chooseSim(prop, r)
+		rr, ok := sim.(raceRunner)
+		if !ok {
+			continue
+		}
+		c := sim.Gen(prop, *flagTier, r)
+		dir, err := os.MkdirTemp("/dev/shm", fmt.Sprintf("wsim-%d-", os.Getpid()))
+		if err != nil {
+			os.Exit(2)
+		}
+		e := &Env{T: t, Prop: prop, Tier: *flagTier, Seed: seed, Dir: dir, Stats: st}
+		synctest.Test(t, func(t *testing.T) {
+			Uninstall()
+			wt.Now = time.Now
+			rr.RunRace(e, c)
+		})
+		os.RemoveAll(dir)
+		st.Runs++
+	}
+	finalizeStats(st, t0, false)
+	if *flagOut != "" {
+		writeJSON(filepath.Join(*flagOut, "stats-race.json"), st)
+	}
+	fmt.Printf("RACE-RUNS %d\n", st.Runs)
 }
